@@ -28,6 +28,7 @@ inductive Phase where
   | finishing                      -- inside `finished` (stream-attached)
   | finishedDone
   | stopping                       -- inside the final `stopped`
+  | exiting (graceful : Bool)      -- the loop is returning; its task has not finished yet
   | done (graceful : Bool)
   deriving DecidableEq, Repr, Inhabited
 
@@ -114,6 +115,7 @@ inductive Label where
   | taskPanic
   | streamReady (k : Nat)
   | streamEnd
+  | taskDone                       -- executor: the loop task completed
   | quiescent (pending : List Nat)
   -- internal moves
   | tDeq
@@ -232,7 +234,7 @@ def finish (s : AState) : AState :=
 /-- Submission of a payload: refused iff the receiver is gone. -/
 def submit (s : AState) (pl : Payload) (path : Path) (tok : Tok) : Option AState :=
   if s.chan.rx then
-    some { s with chan := s.chan.enq { pl, tok := (if path == .waiting then tok else .stale) } }
+    some { s with chan := s.chan.enq { pl, tok := (if path = .waiting then tok else .stale) } }
   else none
 
 def addOp (s : AState) (o h : Nat) (k : OpKind) (st : OpSt) : AState :=
@@ -257,60 +259,50 @@ def sendPath (w : Wiring) (hk : HKind) : Path :=
   | .sender | .weakSender => w.path .senderSend
   | _ => w.path .addrSend
 
+/-- What an operation does at its submission point. -/
+structure Plan where
+  upg : List Half            -- closures a weak handle must find alive (`[]` for strong handles)
+  pl : Option Payload        -- the payload submitted, if any
+  path : Path
+  join : Bool                -- takes the join slot
+
+def plan (w : Wiring) (hk : HKind) (o : Nat) : OpKind → Plan
+  | .send m => { upg := [], pl := some (.msg m none), path := sendPath w hk, join := false }
+  | .trySend m =>
+    { upg := w.upgradeReq .weakSender, pl := some (.msg m none), path := sendPath w hk, join := false }
+  | .call m => { upg := [], pl := some (.msg m (some o)), path := w.path .addrCall, join := false }
+  | .callw m => { upg := [], pl := some (.msg m (some o)), path := w.path .callerCall, join := false }
+  | .tryCall m =>
+    { upg := w.upgradeReq .weakCaller, pl := some (.msg m (some o)), path := w.path .callerCall,
+      join := false }
+  | .ping => { upg := [], pl := some (.ping o), path := w.path .addrPing, join := false }
+  | .halt => { upg := [], pl := some .stop, path := w.path .addrStop, join := false }
+  | .tryHalt =>
+    { upg := w.upgradeReq .weakAddr, pl := some .stop, path := w.path .addrStop, join := false }
+  | .await => { upg := [], pl := none, path := .forcing, join := false }
+  | .join => { upg := [], pl := none, path := .forcing, join := true }
+  | .consume => { upg := [], pl := some .stop, path := w.path .addrStop, join := true }
+
+/-- Record the operation as waiting (for flow control, a reply, the latch or the join slot). -/
+def beginWait (s : AState) (o h : Nat) (k : OpKind) (join : Bool) : AState :=
+  if join then
+    (if s.joinTaken then s.addOp o h k .joinNone
+     else { s with joinTaken := true }.addOp o h k .joining)
+  else s.addOp o h k .pending
+
 def stepBegin (w : Wiring) (s : AState) (o h : Nat) (k : OpKind) : Option AState :=
   match s.handleKind h with
   | none => none
   | some hk =>
     if !kindOk k hk || (s.findOp o).isSome then none else
-    match k with
-    | .send m =>
-      match s.submit (.msg m none) (sendPath w hk) (.op o) with
-      | some s' => some (s'.addOp o h k .pending)
+    let p := plan w hk o k
+    if !s.reqOk w p.upg then some (s.addOp o h k (.failed .alreadyStopped)) else
+    match p.pl with
+    | none => some (s.beginWait o h k p.join)
+    | some pl =>
+      match s.submit pl p.path (.op o) with
       | none => some (s.addOp o h k (.failed .send))
-    | .trySend m =>
-      if s.reqOk w (w.upgradeReq .weakSender) then
-        match s.submit (.msg m none) (sendPath w hk) (.op o) with
-        | some s' => some (s'.addOp o h k .pending)
-        | none => some (s.addOp o h k (.failed .send))
-      else some (s.addOp o h k (.failed .alreadyStopped))
-    | .call m =>
-      match s.submit (.msg m (some o)) (w.path .addrCall) (.op o) with
-      | some s' => some (s'.addOp o h k .pending)
-      | none => some (s.addOp o h k (.failed .send))
-    | .callw m =>
-      match s.submit (.msg m (some o)) (w.path .callerCall) (.op o) with
-      | some s' => some (s'.addOp o h k .pending)
-      | none => some (s.addOp o h k (.failed .send))
-    | .tryCall m =>
-      if s.reqOk w (w.upgradeReq .weakCaller) then
-        match s.submit (.msg m (some o)) (w.path .callerCall) (.op o) with
-        | some s' => some (s'.addOp o h k .pending)
-        | none => some (s.addOp o h k (.failed .send))
-      else some (s.addOp o h k (.failed .alreadyStopped))
-    | .ping =>
-      match s.submit (.ping o) (w.path .addrPing) (.op o) with
-      | some s' => some (s'.addOp o h k .pending)
-      | none => some (s.addOp o h k (.failed .send))
-    | .halt =>
-      match s.submit .stop (w.path .addrStop) (.op o) with
-      | some s' => some (s'.addOp o h k .pending)
-      | none => some (s.addOp o h k (.failed .send))
-    | .tryHalt =>
-      if s.reqOk w (w.upgradeReq .weakAddr) then
-        match s.submit .stop (w.path .addrStop) (.op o) with
-        | some s' => some (s'.addOp o h k .pending)
-        | none => some (s.addOp o h k (.failed .send))
-      else some (s.addOp o h k (.failed .alreadyStopped))
-    | .await => some (s.addOp o h k .pending)
-    | .join =>
-      if s.joinTaken then some (s.addOp o h k .joinNone)
-      else some ({ s with joinTaken := true }.addOp o h k .joining)
-    | .consume =>
-      match s.submit .stop (w.path .addrStop) (.op o) with
-      | some s' =>
-        if s'.joinTaken then some (s'.addOp o h k .joinNone)
-        else some ({ s' with joinTaken := true }.addOp o h k .joining)
-      | none => some (s.addOp o h k (.failed .send))
+      | some s' => some (s'.beginWait o h k p.join)
 
 /-- What a latch awaiter gets. -/
 def latchRes (s : AState) : Option Res :=
@@ -319,52 +311,57 @@ def latchRes (s : AState) : Option Res :=
   | .fired => some .ok
   | .dropped => some (.err .canceled)
 
+/-- The result the operation may return now (`none`: it cannot return yet). -/
+def retExpect (s : AState) (rec : OpRec) : Option Res :=
+  match rec.st with
+  | .failed e => some (.err e)
+  | .pending =>
+    (match rec.kind with
+     | .send _ | .trySend _ => if s.chan.isParked (.op rec.o) then none else some .ok
+     | .halt | .tryHalt | .await => s.latchRes
+     | _ => none)
+  | .answered v =>
+    (match rec.kind with
+     | .call _ | .callw _ | .tryCall _ => some (.okReply v)
+     | _ => none)
+  | .pinged => if rec.kind = .ping then some .ok else none
+  | .cancelled =>
+    (match rec.kind with
+     | .call _ | .callw _ | .tryCall _ | .ping => some (.err .canceled)
+     | _ => none)
+  | .joining =>
+    if s.isDone then
+      (match rec.kind, s.result with
+       | .join, some f => some (.some f)
+       | .join, none => some .none
+       | .consume, some f => some (.some f)
+       | .consume, none => some (.err .alreadyStopped)
+       | _, _ => none)
+    else none
+  | .joinNone =>
+    (match rec.kind with
+     | .join => some .none
+     | .consume => some (.err .alreadyStopped)
+     | _ => none)
+
+def consumesHandle : OpKind → Bool
+  | .halt | .consume => true
+  | _ => false
+
+def isLatchOp : OpKind → Bool
+  | .halt | .tryHalt | .await => true
+  | _ => false
+
+def retEffect (s : AState) (rec : OpRec) : AState :=
+  let s1 := s.removeOp rec.o
+  let s2 := if consumesHandle rec.kind then s1.removeHandle rec.h else s1
+  let s3 := if rec.st = .joining then { s2 with result := none } else s2
+  if isLatchOp rec.kind ∧ rec.st = .pending then { s3 with latchPolled := true } else s3
+
 def stepRet (s : AState) (o : Nat) (r : Res) : Option AState :=
   match s.findOp o with
   | none => none
-  | some rec =>
-    let s' := s.removeOp o
-    match rec.st with
-    | .failed e =>
-      if r == .err e then
-        (match rec.kind with
-         | .halt | .consume => some (s'.removeHandle rec.h)
-         | _ => some s')
-      else none
-    | .pending =>
-      (match rec.kind with
-       | .send _ | .trySend _ =>
-         if r == .ok && !s.chan.isParked (.op o) then some s' else none
-       | .halt | .tryHalt | .await =>
-         if s.latchRes == some r then
-           let s'' := { s' with latchPolled := true }
-           (match rec.kind with
-            | .halt => some (s''.removeHandle rec.h)
-            | _ => some s'')
-         else none
-       | _ => none)
-    | .answered v =>
-      (match rec.kind with
-       | .call _ | .callw _ | .tryCall _ => if r == .okReply v then some s' else none
-       | _ => none)
-    | .pinged => if r == .ok then some s' else none
-    | .cancelled => if r == .err .canceled then some s' else none
-    | .joining =>
-      if s.isDone then
-        (match rec.kind, s.result with
-         | .join, some f => if r == .some f then some { s' with result := none } else none
-         | .join, none => if r == .none then some s' else none
-         | .consume, some f =>
-           if r == .some f then some ({ s' with result := none }.removeHandle rec.h) else none
-         | .consume, none =>
-           if r == .err .alreadyStopped then some (s'.removeHandle rec.h) else none
-         | _, _ => none)
-      else none
-    | .joinNone =>
-      (match rec.kind with
-       | .join => if r == .none then some s' else none
-       | .consume => if r == .err .alreadyStopped then some (s'.removeHandle rec.h) else none
-       | _ => none)
+  | some rec => if s.retExpect rec = some r then some (s.retEffect rec) else none
 
 def stepCdrop (s : AState) (o : Nat) : Option AState :=
   match s.findOp o with
@@ -495,13 +492,17 @@ def stepCbEnd (s : AState) (cb : Cb) (ok : Bool) : Option AState :=
   if !s.workDone then none else
   match cb, s.phase with
   | .started, .starting =>
-    if ok then some { s with phase := .idle, busy := none } else some s.fail
+    if ok then some { s with phase := .idle, busy := none }
+    else some { s with phase := .exiting false, busy := none }
   | .handle m, .handling (.handle m') slot _ =>
     if m == m' && ok then some { (s.answer slot m) with phase := .idle, busy := none } else none
   | .item k, .handling (.item k') _ _ =>
     if k == k' && ok then some { s with phase := .idle, busy := none } else none
   | .finished, .finishing => if ok then some { s with phase := .finishedDone, busy := none } else none
-  | .stopped, .stopping => if ok then some s.finish else none
+  | .stopped, .stopping =>
+    if ok then some { s with phase := .exiting true, busy := none,
+                             latch := (if s.latch == .pending then .fired else s.latch) }
+    else none
   | .stopped, .rstStopping =>
     if ok then some { s with phase := .rstStopped false, busy := none } else none
   | _, _ => none
@@ -519,14 +520,16 @@ def stepCbAbandon (s : AState) (cb : Cb) : Option AState :=
   | .handling cb' slot (some dl) =>
     if cb == cb' && dl ≤ s.clock then
       let s1 := s.cancelSlots (match slot with | some o => [o] | none => [])
-      if s.cfg.failOnTimeout then some { s1 with phase := .idle }.fail
+      if s.cfg.failOnTimeout then some { s1 with phase := .exiting false, busy := none }
       else some { s1 with phase := .idle, busy := none }
     else none
   | .done false => if s.abandon == some cb then some { s with abandon := none } else none
   | _ => none
 
 def stepCbPanic (s : AState) (cb : Cb) : Option AState :=
-  if s.openCb == some cb then some s.fail else none
+  if s.openCb == some cb then
+    some { (s.cancelSlots s.curSlot) with phase := .exiting false, busy := none }
+  else none
 
 def stepVnew (s : AState) (b : Nat) : Option AState :=
   match s.phase with
@@ -641,13 +644,19 @@ def stepTime (s : AState) (t : Nat) : Option AState :=
 def stepCancel (s : AState) : Option AState :=
   if s.isDone then none else some { s.fail with abandon := s.openCb }
 
+def stepTaskDone (s : AState) : Option AState :=
+  match s.phase with
+  | .exiting true => some s.finish
+  | .exiting false => some s.fail
+  | _ => none
+
 def stepTaskPanic (s : AState) : Option AState :=
   match s.phase with
-  | .done false => some s
+  | .exiting false => some s.fail
   | .idle =>
     (match s.chan.queue with
      | { pl := .restart, .. } :: _ =>
-       if s.cfg.stream then some ({ s with chan := s.chan.deq }).fail else none
+       if s.cfg.stream && s.chan.rx then some ({ s with chan := s.chan.deq }).fail else none
      | _ => none)
   | _ => none
 
@@ -719,6 +728,7 @@ def step (w : Wiring) (s : AState) : Label → Option AState
   | .taskPanic => s.stepTaskPanic
   | .streamReady k => s.stepStreamReady k
   | .streamEnd => s.stepStreamEnd
+  | .taskDone => s.stepTaskDone
   | .quiescent _ => some s
   | .tDeq => s.stepDeq
   | .tChanEnd => s.stepChanEnd w
